@@ -15,8 +15,11 @@ import json
 SHEET = 'S'
 
 
-def tla_val(v):
+def tla_val(v, scale=1):
     """python scalar -> TLA+ text of the tagged value"""
+    if scale != 1 and isinstance(v, (int, float)) and not isinstance(v, bool):
+        assert float(v * scale).is_integer(), v
+        return f'<<"N", {int(v * scale)}>>'
     if v is None:
         return '<<"Z">>'
     if isinstance(v, bool):
@@ -30,9 +33,16 @@ def tla_val(v):
     raise ValueError(v)
 
 
-def js_val(v):
+def js_val(v, scale=1):
     """python value (as pycel returns it) -> JSON form of the tagged value"""
     import numpy as np
+    if scale != 1:
+        if isinstance(v, tuple):
+            return ['M', [[js_val(x, scale) for x in row] for row in v]]
+        if isinstance(v, (int, float, np.integer, np.floating)) and not isinstance(
+                v, (bool, np.bool_)):
+            x = float(v) * scale
+            return ['N', int(round(x))] if abs(x - round(x)) < 1e-9 else ['F', float(v)]
     if v is None:
         return ['Z']
     if isinstance(v, (bool, np.bool_)):
@@ -60,6 +70,14 @@ def py_val(j):
     if t == 'M':
         return tuple(tuple(py_val(x) for x in row) for row in j[1])
     raise ValueError(j)
+
+
+def py_val_scaled(j, scale=1):
+    """JSON tagged value of a scaled model -> python scalar"""
+    if j[0] == 'N' and scale != 1:
+        v = j[1] / scale
+        return int(v) if float(v).is_integer() else v
+    return py_val(j)
 
 
 def cse_members(ref, rows=None):
@@ -96,11 +114,15 @@ def tla_constants(wb, pool, src, name, lists=(), settable=None, extends='Engine'
                   extra=''):
     """text of an MC module binding Engine's constants for this workbook"""
     n = nodes(wb)
+    scale = wb.get('scale', 1)
     defs = []
     for f, d in sorted(wb['formulas'].items()):
         kind = d[0]
         if kind == 'Plus':
-            defs.append(f'{q(f)} :> [kind |-> "Plus", refs |-> {tla_seq(map(q, d[1]))}, k |-> {d[2]}]')
+            defs.append(f'{q(f)} :> [kind |-> "Plus", refs |-> {tla_seq(map(q, d[1]))}, k |-> {d[2] * scale}]')
+        elif kind == 'Lin':
+            defs.append(f'{q(f)} :> [kind |-> "Lin", refs |-> {tla_seq(map(q, d[1]))}, '
+                        f'coefs |-> {tla_seq(map(str, d[2]))}, shift |-> {d[3]}, b |-> {d[4] * scale}]')
         elif kind == 'Cat':
             defs.append(f'{q(f)} :> [kind |-> "Cat", ref |-> {q(d[1])}]')
         elif kind == 'SumR':
@@ -121,7 +143,7 @@ def tla_constants(wb, pool, src, name, lists=(), settable=None, extends='Engine'
                 defs.append(f'{q(c)} :> [kind |-> "Idx", rng |-> {q(r)}, i |-> {i}, j |-> {j}]')
     for a, r in sorted(wb.get('aliases', {}).items()):
         defs.append(f'{q(a)} :> [kind |-> "Alias", rng |-> {q(r)}]')
-    init0 = ' @@ '.join(f'{q(a)} :> {tla_val(v)}' for a, v in sorted(wb['inputs'].items()))
+    init0 = ' @@ '.join(f'{q(a)} :> {tla_val(v, scale)}' for a, v in sorted(wb['inputs'].items()))
     return f'''---- MODULE {name} ----
 EXTENDS {extends}
 MCInputs == {tla_set(map(q, n['inputs']))}
@@ -130,7 +152,7 @@ MCRanges == {tla_set(map(q, n['ranges']))}
 MCAliases == {tla_set(map(q, n['aliases']))}
 MCDef == {(' @@ ' + chr(10) + '  ').join(defs)}
 MCInit0 == {init0}
-MCPool == {tla_set(tla_val(v) for v in pool)}
+MCPool == {tla_set(tla_val(v, scale) for v in pool)}
 MCSettable == {tla_set(map(q, sorted(wb['inputs']) if settable is None else settable))}
 MCLists == {tla_set(tla_seq(map(q, l)) for l in lists)}
 MCSrc == "{src}"
@@ -168,6 +190,9 @@ def formula_text(wb, f):
     d = wb['formulas'][f]
     if d[0] == 'Plus':
         return '=' + '+'.join(d[1]) + f'+{d[2]}'
+    if d[0] == 'Lin':
+        terms = '+'.join(f'{c}*{r}' for r, c in zip(d[1], d[2]))
+        return f'=({terms})/{2 ** d[3]}+{d[4]}'
     if d[0] == 'Cat':
         return f'={d[1]}&"x"'
     if d[0] == 'SumR':
@@ -242,6 +267,26 @@ WORKBOOKS = {
 
 # C05: the same workbooks with observer ranges (rectangles and unbounded
 # rows/columns nobody depends on) so that every access path is an action
+# C06: circular workbooks (dyadic linear systems, exact when scaled by 2^16)
+WORKBOOKS_CYC = {
+    # A1 = (B1 + C1)/4 + 1 ; B1 = A1/2 ; C1 input       q = 1/8
+    'cyc2': dict(scale=65536,
+        inputs={'C1': 4},
+        formulas={'A1': ('Lin', ['B1', 'C1'], [1, 1], 2, 1), 'B1': ('Lin', ['A1'], [1], 1, 0)}),
+    # a cycle through a range: S1 = SUM(B1:B2) ; A1 = S1/4 + 1 ; B1 = A1 ; B2 input
+    'cycr': dict(scale=65536,
+        inputs={'B2': 1},
+        formulas={'S1': ('SumR', 'B1:B2'), 'A1': ('Lin', ['S1'], [1], 2, 1),
+                  'B1': ('Lin', ['A1'], [1], 0, 0)},
+        ranges={'B1:B2': [['B1'], ['B2']]}),
+    # three cells, two coupled loops
+    'cyc3': dict(scale=65536,
+        inputs={'D1': 8},
+        formulas={'A1': ('Lin', ['B1', 'C1'], [1, 1], 2, 2),
+                  'B1': ('Lin', ['A1', 'D1'], [1, 1], 2, 0),
+                  'C1': ('Lin', ['B1'], [1], 1, 1)}),
+}
+
 WORKBOOKS_OBS = {
     'chain_obs': dict(
         inputs={'A1': 1, 'A2': 2, 'B2': None},
